@@ -408,14 +408,41 @@ func gWithChildren(c *Ctx, rule string) {
 				return true
 			}
 			// then-branch (no children) must reach a plain call writer; else a WithChildren writer
-			be, ok := is.Cond.(*ast.BinaryExpr)
-			if !ok || be.Op != token.EQL || types.ExprString(be.Y) != "0" {
+			// which branch is "no children": len(x) == 0, < 1, <= 0 → the then-branch; > 0, != 0, >= 1 → the else-branch
+			// (or, without an else, what is common to both)
+			be, ok := ast.Unparen(is.Cond).(*ast.BinaryExpr)
+			noneIsThen, known := false, false
+			if ok {
+				k, isC := constInt(g.info, be.Y)
+				_, lenLeft := ast.Unparen(be.X).(*ast.CallExpr)
+				if isC && lenLeft {
+					switch {
+					case be.Op == token.EQL && k == 0, be.Op == token.LSS && k == 1, be.Op == token.LEQ && k == 0:
+						noneIsThen, known = true, true
+					case be.Op == token.GTR && k == 0, be.Op == token.NEQ && k == 0, be.Op == token.GEQ && k == 1:
+						noneIsThen, known = false, true
+					}
+				}
+			}
+			if !known {
 				c.undec(rule, gf.Key+"|block-dispatch", c.pos(is.Pos()), "unrecognised children test "+cond)
 				return true
 			}
-			thenPlain := g.stmtReachesWithChildren(is.Body) == false
+			var none, some *ast.BlockStmt
+			if noneIsThen {
+				none = is.Body
+				some, _ = is.Else.(*ast.BlockStmt)
+			} else {
+				some = is.Body
+				none, _ = is.Else.(*ast.BlockStmt)
+			}
+			thenPlain := none == nil || !g.stmtReachesWithChildren(none)
 			c.check(thenPlain, rule, gf.Key+"|block-dispatch", c.pos(is.Pos()), "calls without a block take the plain-ctx emission",
 				gf.Name+": a call with no children is routed to the WithChildren emission")
+			if some != nil {
+				c.check(g.stmtReachesWithChildren(some), rule, gf.Key+"|block-dispatch:block", c.pos(is.Pos()), "calls with a block take the WithChildren emission",
+					gf.Name+": the branch for a call that has children does not reach the WithChildren emission — the block would never reach its callee")
+			}
 			return true
 		})
 	}
@@ -425,6 +452,13 @@ func gWithChildren(c *Ctx, rule string) {
 func (g *GEM) stmtReachesWithChildren(b *ast.BlockStmt) bool {
 	res := false
 	ast.Inspect(b, func(x ast.Node) bool {
+		// the text written here …
+		if e, ok := x.(ast.Expr); ok {
+			if sv, isC := constString(g.info, e); isC && strings.Contains(sv, "templ.WithChildren(") {
+				res = true
+			}
+		}
+		// … or by an emitter called here
 		if call, ok := x.(*ast.CallExpr); ok {
 			if fn := calleeOf(g.info, call); fn != nil {
 				if cg := g.funcs[fn]; cg != nil && cg.Emits {
